@@ -693,7 +693,7 @@ http_sconn_cbdone(void *arg)
 }
 
 static nng_err
-http_sconn_init(http_sconn **scp, nng_stream *stream)
+http_sconn_init(http_sconn **scp, nni_http_server *s, nng_stream *stream)
 {
 	http_sconn *sc;
 	nng_err     rv;
@@ -702,6 +702,8 @@ http_sconn_init(http_sconn **scp, nng_stream *stream)
 		nng_stream_free(stream);
 		return (NNG_ENOMEM);
 	}
+	// The reaper needs the server, also when we fail below.
+	sc->server = s;
 
 	nni_aio_init(&sc->rxaio, http_sconn_rxdone, sc);
 	nni_aio_init(&sc->txaio, http_sconn_txdone, sc);
@@ -744,14 +746,13 @@ http_server_acccb(void *arg)
 		nni_mtx_unlock(&s->mtx);
 		return;
 	}
-	if (http_sconn_init(&sc, stream) != 0) {
+	if (http_sconn_init(&sc, s, stream) != 0) {
 		// The stream structure is already cleaned up.
 		// Start another accept attempt.
 		nng_stream_listener_accept(s->listener, aio);
 		nni_mtx_unlock(&s->mtx);
 		return;
 	}
-	sc->server = s;
 	nni_list_append(&s->conns, sc);
 
 	sc->handler = NULL;
